@@ -12,7 +12,7 @@ from props import hashcommon as HC
 from props.parts import c01_carry as CARRY
 
 ID = 'C01'
-LEAN_PROOFS = ['Proofs.C01', 'Proofs.C01_Consts']
+LEAN_PROOFS = ['Proofs.C01', 'Proofs.C01_Consts', 'Proofs.C01_Kat']
 GEN_ITEMS = ['Hashes']
 RULE = ('op lines `hash <alg> <msg> <bitlen|None>` over the ten algorithms: every byte length 0..2 blocks+2, every L mod 8 around the '
         'spill boundary (block-1-2*word bytes), block and two-block boundaries, 3-5 blocks seeded, L=None, L=0, L>8|M|, trailing data '
@@ -27,7 +27,7 @@ RULE = ('op lines `hash <alg> <msg> <bitlen|None>` over the ten algorithms: ever
         'digest, after a preset counter; seeded lives of 4-7 steps), every call compared with the standard\'s digest of that message '
         'alone; distinct lines; non-trivial = the implementation returned a digest')
 TRUSTED = ['lean/Spec/{Md4,Md5,Sha1,Sha2,MerkleDamgard,Bytes}.lean as renderings of RFC 1320, RFC 1321, FIPS 180-4 (validated in this stream against '
-           'hashlib for md5/sha1/sha2 incl. 512/t and against small references for MD4/SHA-0: supporting evidence only)',
+           'hashlib for md5/sha1/sha2 incl. 512/t and against small references for MD4/SHA-0: supporting evidence only; for MD4 and SHA-0, which hashlib lacks, the RFC 1320 test-suite digests of "" and "abc" and the FIPS 180 (1993) digest of "abc" hold for the Spec in the kernel and for the model through hash_refines_omitted - Proofs.C01_Kat)',
            'NOT trusted any more: the literals of lean/Spec/Sha2Consts.lean (K256, K512, iv224/256/384/512) and SHA-1\'s K - Proofs.C01_Consts proves in the kernel that they are '
            'the first 32/64 bits of the fractional parts of the cube/square roots of the first 80/8/9th..16th primes (primes by trial division, none skipped), '
            'resp. floor(2^30*sqrt(2,3,5,10)); still typed from the RFCs: MD4/MD5 IVs, SHA-1 IV, MD5 sine table T, shift and index tables',
